@@ -262,7 +262,7 @@ def make_case(rng, op, lays, n, kind, prec):
 
 def generate(rng, tier):
     nmax = 8 if tier == "quick" else 12
-    rounds = 5 if tier == "quick" else 16
+    rounds = 8 if tier == "quick" else 32
     cases = []
     combos = layout_combos()
     for rd in range(rounds):
